@@ -593,10 +593,24 @@ func genAction(r *vh.Rng, ups []conf_v1.Upstream) *conf_v1.Action {
 }
 
 func genSplits(r *vh.Rng, ups []conf_v1.Upstream) []conf_v1.Split {
-	if r.Bool() {
-		return []conf_v1.Split{{Weight: 90, Action: genAction(r, ups)}, {Weight: 10, Action: genAction(r, ups)}}
+	var ws []int
+	switch r.Intn(6) {
+	case 0:
+		ws = []int{100, 0} // a split with weight 0 is legal: its location is generated, it gets no traffic
+	case 1:
+		ws = []int{0, 0, 100}
+	case 2:
+		ws = []int{0, 100}
+	case 3:
+		ws = []int{50, 30, 20}
+	default:
+		ws = []int{90, 10}
 	}
-	return []conf_v1.Split{{Weight: 50, Action: genAction(r, ups)}, {Weight: 30, Action: genAction(r, ups)}, {Weight: 20, Action: genAction(r, ups)}}
+	var out []conf_v1.Split
+	for _, wt := range ws {
+		out = append(out, conf_v1.Split{Weight: wt, Action: genAction(r, ups)})
+	}
+	return out
 }
 
 func genPolicyRefs(r *vh.Rng, ns string) []conf_v1.PolicyReference {
@@ -839,7 +853,10 @@ func (w *world) addTS(r *vh.Rng, ns, name string) {
 		if w.flags.Plus && r.Chance(1, 3) {
 			u.HealthCheck = &conf_v1.TransportServerHealthCheck{Enabled: true, Timeout: "30s", Jitter: "2s", Port: 8080, Interval: "10s", Passes: 2, Fails: 2}
 			if r.Bool() {
-				u.HealthCheck.Match = &conf_v1.TransportServerMatch{Send: "GET / HTTP/1.0\\r\\nHost: localhost\\r\\n\\r\\n", Expect: vh.Pick(r, []string{"~*200 OK", "ok"})}
+				u.HealthCheck.Match = &conf_v1.TransportServerMatch{Send: "GET / HTTP/1.0\\r\\nHost: localhost\\r\\n\\r\\n", Expect: vh.Pick(r, []string{"~*200 OK", "ok", "~* 200 OK", "~ ^ok", "~*  ^250 OK"})}
+				if r.Chance(1, 3) {
+					u.HealthCheck.Match.Send = vh.Pick(r, []string{"ping", "~ not a modifier", "EHLO x\\r\\n"})
+				}
 			}
 		}
 		if w.flags.Plus && r.Chance(1, 8) {
